@@ -198,11 +198,15 @@ CHECKS = {
         "knowledge bases, counters): a fetched clause equals the stored one once ids are erased (atoms, numbers, list nodes "
         "including [], counts, tail markers and goal structure untouched; a renamed well-formed list is a well-formed list of "
         "the renamed elements), occurrences of one name carry one id and different names different ids, and every id lies "
-        "strictly above the counter before the fetch and at most the counter after it. That no such id is in use elsewhere in "
-        "the current search is the solver invariant ids_below_counter, proved with the solver model (C01/C22). Tied to the "
+        "strictly above the counter before the fetch and at most the counter after it (Properties/C10base.v). That no such id is in use elsewhere in "
+        "the current search is proved for every program (Properties/C10.v, Proofs/FreshSearch.v): unification and all sixteen built-in predicates keep "
+        "every variable id and every slot of the substitution set at or below the id counter; hence every clause the reference search fetches is apart "
+        "from the goal, from every slot and from every bound term (C10_clause_fetched_is_apart), the counter never falls below its start (a failed head "
+        "restores it to the value before the fetch) and every answer lies below the final counter (C10_canswers_fresh) - and, through the refinement "
+        "theorem, the same holds for every answer of the engine model (C10_engine_answers_fresh, C10_engine_requests_fresh). Tied to the "
         "code by differential execution on raw structure; the three clauses are also checked on the implementation's own "
         "results (oracle).", ref="7/C10",
-   technique="Coq proof (Properties/C10.v, Proofs/RenameProofs.v) + model-vs-implementation correspondence via extraction + specification oracle on the implementation's results"),
+   technique="Coq proof of renaming (Properties/C10base.v) and of freshness during a search for all programs (Properties/C10.v, Proofs/FreshSearch.v) + model-vs-implementation correspondence via extraction + specification oracle on the implementation's results"),
 
  "C15": dict(
    text="Machine-checked theorems about the list builders (all element sequences, any length): make_list_of_terms (the builder "
